@@ -4,7 +4,7 @@ CONSTANTS
   MinUnitsC = {"maa", "mbb"}
   RecordHist = TRUE
   Owners = {"u1", "u2"}
-  Symbols = {"aaa", "bbb"}
+  Symbols = {"aaa", "bbb", "maa"}
   Scales = {0, 1, 2}
   Initials = {0, 1, 2}
   Maxes = {0, 2, 3, 6}
